@@ -17,7 +17,7 @@ PROPS = {
     "C01": dict(title="exact key->value map", families=[("tree:map", 16, 160, 160, 22), ("nul", 2, 16, 60, 10), ("closure:map", 6, 6, 8, 0, 16, 0)],
                 corr={"I", "S", "D"}, oracle={"I", "S", "D"}, theorem="Properties/C01.v",
                 corpus=["D1", "D2", "D14"]),
-    "C02": dict(title="iteration complete, duplicate-free, sorted", families=[("tree:iter", 16, 160, 120, 22), ("nul:clean", 2, 16, 60, 10)],
+    "C02": dict(title="iteration complete, duplicate-free, sorted", families=[("tree:iter", 16, 160, 120, 22), ("nul:clean", 2, 16, 60, 10)], side="C02",
                 corr={"ALL", "BWD"}, oracle={"ALL", "BWD"}, theorem="Properties/C02.v"),
     "C03": dict(title="Range exact", families=[("tree:range", 16, 160, 120, 22)],
                 corr={"RNG"}, oracle={"RNG"}, theorem="Properties/C03.v", corpus=["D4", "D5", "D12", "D13"]),
@@ -32,7 +32,7 @@ PROPS = {
     "C08": dict(title="collation trees", families=[("tree:full:coll", 20, 160, 110, 14)],
                 corr=ALL_TREE_TAGS - {"RNG"}, oracle=ALL_TREE_TAGS - {"RNG"}, theorem="Properties/C08.v", opts=["-buf"], side="C08"),
     "C09": dict(title="compound trees", families=[("tree:full:comp", 12, 120, 120, 20), ("tree:full:raw", 2, 20, 120, 12), ("codec", 2, 20, 0, 0)],
-                corr=ALL_TREE_TAGS | {"ENC"}, oracle=ALL_TREE_TAGS - {"PFX"}, theorem="Properties/C09.v"),
+                corr=ALL_TREE_TAGS | {"ENC"}, oracle=ALL_TREE_TAGS - {"PFX"}, theorem="Properties/C09.v", opts=["-buf"], side="C09"),
     "C10": dict(title="inner node tables", families=[("node4", 3, 12, 0, 0), ("node16", 3, 12, 0, 0), ("nodeseq", 8, 80, 0, 0)],
                 corr=NODE_TAGS, oracle=set(), theorem="Properties/C10.v", need386=True, special="node", corpus=["D11"]),
     "C11": dict(title="index well-formed", families=[("tree:shape", 16, 160, 90, 18), ("closure:shape", 6, 6, 16, 0, 20, 12000)],
@@ -42,7 +42,7 @@ PROPS = {
                 corr=ALL_TREE_TAGS | {"DUMP"} | NODE_TAGS, oracle=ALL_TREE_TAGS, theorem="Properties/C12.v", special="pool"),
     "C13": dict(title="key arguments", families=[("tree:full:alpha", 10, 100, 120, 22), ("tree:full:coll", 6, 60, 100, 14)],
                 corr=ALL_TREE_TAGS - {"RNG"}, oracle=ALL_TREE_TAGS - {"RNG"} | {"RNG"}, theorem="Properties/C13.v",
-                opts=["-buf"], side="C13", corpus=["D8"]),
+                opts=["-buf"], side="C13", corpus=["D8", "D15"]),
     "C14": dict(title="sequences abandoned and re-iterated", families=[("tree:seqs", 16, 160, 110, 22)],
                 corr={"ALL", "BWD", "TOPK", "BOTK", "RNG", "PFX"}, oracle={"ALL", "BWD", "TOPK", "BOTK", "RNG", "PFX"},
                 theorem="Properties/C14.v", corpus=["D7"]),
